@@ -221,10 +221,19 @@ def buffer_views(ctx, rep, rule: str, classes: list[str]) -> None:
         # size expression agreement
         init, cdb = repo.meth(ci, "__init__"), repo.meth(ci, "_construct_distributed_buffers")
         def size_exprs(fi):
+            import copy as _copy
+
             out = set()
             for n in ast.walk(fi.node):
-                if isinstance(n, ast.BinOp) and isinstance(n.op, ast.Mult) and "numel()" in ast.unparse(n) and "get_dtype_size" in ast.unparse(n):
-                    out.add(_norm(n))
+                if isinstance(n, ast.BinOp) and isinstance(n.op, ast.Mult) and "numel()" in ast.unparse(n):
+                    # a hoisted element size (`sz = get_dtype_size(dtype)`; `numel() * sz`) is the same expression
+                    e = _copy.deepcopy(n)
+                    for nm in [x for x in ast.walk(e) if isinstance(x, ast.Name) and isinstance(x.ctx, ast.Load)]:
+                        ds = A.assignments_to(fi.node, nm.id)
+                        if len(ds) == 1 and isinstance(ds[0], ast.Call) and "get_dtype_size" in ast.unparse(ds[0].func):
+                            e = _subst_name(e, nm.id, ds[0])
+                    if "get_dtype_size" in ast.unparse(e):
+                        out.add(_norm(e))
             return out
         # the number of ranks the assignment spreads the blocks over is the number of segments of the gather buffer
         from ..canon import composed_call
@@ -262,10 +271,22 @@ def alignment_arithmetic(ctx, rep, rule: str, classes: list[str]) -> None:
         fi = repo.meth(ci, "_distribute_buffer_sizes")
         consts = [n for n in A.walk_no_nested(fi.node) if isinstance(n, ast.Assign) and isinstance(n.targets[0], ast.Name) and isinstance(n.value, ast.Constant) and isinstance(n.value.value, int)]
         comps = [n for n in A.walk_no_nested(fi.node) if isinstance(n, ast.Assign) and isinstance(n.value, ast.ListComp) and len(n.value.generators) == 1 and _norm(n.value.generators[0].iter) == [p_ for p_ in fi.params if p_ not in ("self", "cls")][0]]
-        ok = len(consts) == 1 and len(comps) == 1
-        detail = f"{len(consts)} integer constant(s), {len(comps)} per-size list comprehension(s)"
+        named = [(n.targets[0].id, n.value.value) for n in consts]
+        # an integer parameter default that no call site in the repository overrides is that constant
+        a_ = fi.node.args
+        pos = a_.posonlyargs + a_.args
+        defaults = list(zip(pos[len(pos) - len(a_.defaults):], a_.defaults)) + [(k, d) for k, d in zip(a_.kwonlyargs, a_.kw_defaults) if d is not None]
+        sites = [c for f2 in repo.funcs.values() for c in A.calls(f2.node) if isinstance(c.func, ast.Attribute) and c.func.attr == "_distribute_buffer_sizes"]
+        for arg, d in defaults:
+            if isinstance(d, ast.Constant) and type(d.value) is int:
+                idx = [x.arg for x in pos if x.arg not in ("self", "cls")].index(arg.arg) if arg in pos else None
+                overridden = any(A.keyword(c, arg.arg) is not None or (idx is not None and len(c.args) > idx) or any(k.arg is None for k in c.keywords) for c in sites)
+                if not overridden:
+                    named.append((arg.arg, d.value))
+        ok = len(named) == 1 and len(comps) == 1
+        detail = f"{len(named)} integer constant(s), {len(comps)} per-size list comprehension(s)"
         if ok:
-            aname, aval = consts[0].targets[0].id, consts[0].value.value
+            aname, aval = named[0]
             var = comps[0].value.generators[0].target.id
             bad = []
             try:
@@ -308,6 +329,16 @@ def state_mesh_layout(ctx, rep, rule: str) -> None:
         rep.ob(rule, f"state-mesh:{ci.name}", view_ok and names_ok and sub_ok and init_ok, fi.loc(views[0]) if views else fi.loc(), f"replicate ranks viewed as (-1, dist_group_size): {view_ok}; dimension names ('replicate', 'shard'): {names_ok}; owner-th sub-mesh along 'replicate': {sub_ok}; same row layout as the communication groups in __init__: {init_ok}", sample=True)
 
 
+def _subst_name(e, name, repl):
+    import copy as _copy
+
+    class T(ast.NodeTransformer):
+        def visit_Name(self, n):
+            return _copy.deepcopy(repl) if n.id == name and isinstance(n.ctx, ast.Load) else n
+
+    return T().visit(e)
+
+
 def split_semantics(ctx, rep, rule: str, copies) -> None:
     """_split_local_dist_buffers by concrete interpretation on small cases: given (size, owner) per block in block order and one
     gather segment per rank, the i-th returned view is cut from the segment OF ITS OWNER (segment number == rank), at the offset
@@ -339,6 +370,9 @@ def split_semantics(ctx, rep, rule: str, copies) -> None:
 
             def __repr__(self):
                 return f"segment[{self.rank}][{self.off}:{self.off + self.n}]"
+
+            shape = property(lambda self: (self.n,))
+            ndim = 1
 
         def hook(it, c):
             f = c.func
